@@ -167,3 +167,15 @@ def corpus(pid, tier="quick"):
         t = l.split(" ", 2)
         out[i] = "%s %d %s" % (t[0], 9000000 + i, t[2])
     return out
+
+
+def corpus_pairs(pid):
+    """pairs of scenes that must give identical pictures (corpus/<pid>.pairs.cases) -> [(kind, scene_a, scene_b)]"""
+    f = os.path.join(ROOT, "corpus", pid + ".pairs.cases")
+    out = []
+    if os.path.exists(f):
+        for l in open(f):
+            l = l.strip()
+            if l and not l.startswith("#") and l.count(" ||| ") == 2:
+                out.append(tuple(l.split(" ||| ")))
+    return out
